@@ -177,7 +177,11 @@ func (rt *runtime) cmplEvaluateNodeBracketExpression(node *nodeBracketExpression
 	if err != nil {
 		panic(rt.panicTypeError("Cannot access member %q of %s", memberValue.string(), err, at(node.idx)))
 	}
-	return toValue(newPropertyReference(rt, obj, memberValue.string(), false, at(node.idx)))
+	ref := newPropertyReference(rt, obj, memberValue.string(), false, at(node.idx))
+	if !targetValue.IsObject() {
+		ref.primitive = targetValue
+	}
+	return toValue(ref)
 }
 
 func (rt *runtime) cmplEvaluateNodeCallExpression(node *nodeCallExpression, withArgumentList []interface{}) Value {
@@ -202,6 +206,9 @@ func (rt *runtime) cmplEvaluateNodeCallExpression(node *nodeCallExpression, with
 		case *propertyReference:
 			name = rf.name
 			this = objectValue(rf.base)
+			if rf.primitive.IsDefined() {
+				this = rf.primitive
+			}
 			// 15.1.2.1.1: only a call through the identifier eval (which resolves
 			// to a property of the global or a with object) can be a direct call;
 			// o.eval(...) and this.eval(...) are indirect.
@@ -263,7 +270,11 @@ func (rt *runtime) cmplEvaluateNodeDotExpression(node *nodeDotExpression) Value 
 	if err != nil {
 		panic(rt.panicTypeError("Cannot access member %q of %s", node.identifier, err, at(node.idx)))
 	}
-	return toValue(newPropertyReference(rt, obj, node.identifier, false, at(node.idx)))
+	ref := newPropertyReference(rt, obj, node.identifier, false, at(node.idx))
+	if !targetValue.IsObject() {
+		ref.primitive = targetValue
+	}
+	return toValue(ref)
 }
 
 func (rt *runtime) cmplEvaluateNodeNewExpression(node *nodeNewExpression) Value {
